@@ -33,6 +33,8 @@ def run(prop, tier, seed, work, ev):
     if r.rc != 0 or not os.path.exists(c):
         raise ToolError("Gen_Json failed:\n" + r.tail())
     rejects += run_and_judge("enumerated numerals, strings, structures", c, work, ev, drv)
+    rejects += run_and_judge("hand-shaped texts: several strings in one document whose contents look like tokens (NaN, Infinity, brackets, comments) after strings ending in "
+                             "escaped backslashes / quotes; texts other dialects accept and JSON does not", os.path.join(common.SPEC, "gen", "json_pools.ndjson"), work, ev, drv)
     c = work.path("rand.cases")
     subprocess.check_call([drv, "gen", "json", str(seed), str(t["rand"]), c])
     rejects += run_and_judge("random numerals and structures", c, work, ev, drv)
